@@ -29,7 +29,10 @@
                                  of the header array are rejected; the Node extensions decoder
                                  reads five elements and leaves excess elements of *its* array
                                  unread (forward compatibility), rejects version <> 1 and unknown
-                                 variant codes; [previous] is collected into a set ([canon]).
+                                 variant codes; [previous] is collected into a set ([canon]); an
+                                 empty byte string in its place is read as the empty set (found
+                                 by the correspondence run: ciborium reads a byte string as a
+                                 sequence of u8).  [seq_num] is a [u32] ([SeqNum]).
                                  [SeqAccess] over a definite-length array is the pair
                                  (remaining element count, remaining tokens).
 
@@ -231,6 +234,11 @@ Definition dec_node_ext (ts : list token) : option (ext * list token) :=
         match st with
         | (S _, TSeq k :: r') =>
             bind (next_hashes k r') (fun '(pv, r'') => Some (ECausal l t (canon pv), r''))
+        | (S _, TBytes [] :: r') =>
+            (* ciborium's [deserialize_seq] also takes a byte string as a sequence of u8; an
+               element of [previous] cannot be built from a u8, so only the empty byte string
+               passes — as the empty set *)
+            Some (ECausal l t [], r')
         | _ => None
         end))
       else None))
